@@ -24,8 +24,8 @@ pub fn gen(rng: &mut Rng, n: usize, sink: &mut Sink) {
         let steps = rng.range(10, 40);
         for _ in 0..steps {
             let caller = match rng.below(4) {
-                0 => collector.clone(),
-                1 => owner.clone(),
+                0 | 1 => collector.clone(),
+                2 => owner.clone(),
                 _ => user(rng.below(6) as u8),
             };
             let r = rng.below(100);
@@ -61,9 +61,32 @@ pub fn gen(rng: &mut Rng, n: usize, sink: &mut Sink) {
                 let k = rng.range(0, 4) as usize;
                 let mut toks: Vec<Vec<u8>> = vec![];
                 let mut amts: Vec<Vec<u8>> = vec![];
-                for _ in 0..k {
-                    toks.push(if rng.chance(1, 3) { b"EGLD".to_vec() } else { rng.pick(&TOKENS).as_bytes().to_vec() });
-                    amts.push(nat(*rng.pick(&[0u128, 1, 1, 3, 50, 100, 1000, 5_000_000])));
+                if rng.chance(1, 2) {
+                    // boundary mode: repeated entries of one token around the service's current balance
+                    let t = *rng.pick(&["EGLD", TOKENS[0], TOKENS[1], TOKENS[2]]);
+                    let out = sink.exec(&format!("bal {} {}", hex::encode(&gs), t));
+                    let b: u128 = out.split("n=").nth(1).and_then(|v| v.trim().parse().ok()).unwrap_or(0);
+                    let shapes: [Vec<u128>; 6] = [
+                        vec![b, 1],
+                        vec![b / 2 + 1, b / 2 + 1],
+                        vec![b, b],
+                        vec![b + 1, b],
+                        vec![1, b],
+                        vec![b.saturating_sub(1).max(1), 1, 1],
+                    ];
+                    for a in rng.pick(&shapes) {
+                        toks.push(t.as_bytes().to_vec());
+                        amts.push(nat(*a));
+                    }
+                    if rng.chance(1, 3) {
+                        toks.push(rng.pick(&TOKENS).as_bytes().to_vec());
+                        amts.push(nat(1));
+                    }
+                } else {
+                    for _ in 0..k {
+                        toks.push(if rng.chance(1, 3) { b"EGLD".to_vec() } else { rng.pick(&TOKENS).as_bytes().to_vec() });
+                        amts.push(nat(*rng.pick(&[0u128, 1, 1, 3, 50, 100, 1000, 5_000_000])));
+                    }
                 }
                 if rng.chance(1, 10) {
                     amts.pop();
